@@ -10,7 +10,7 @@ use crate::{
     error::{assert_finite, assert_limited_precision, panic_log_non_positive},
     fbig::FBig,
     repr::{Context, Repr, Word},
-    round::{Round, Rounded},
+    round::{Round, Rounded, Rounding},
 };
 
 impl<const B: Word> EstimatedLog2 for Repr<B> {
@@ -307,7 +307,12 @@ impl<R: Round> Context<R> {
         } else {
             2 * sum + s * work_context.ln2()
         };
-        result.with_precision(self.precision)
+        // log(x) is irrational for every rational x other than 1: the result is never exact,
+        // even when the last rounding step happened to be
+        match result.with_precision(self.precision) {
+            Exact(v) => Inexact(v, Rounding::NoOp),
+            r => r,
+        }
     }
 }
 
